@@ -109,7 +109,7 @@ def load_case(fa, cid, files, order, top, missing, data, tmproot):
 
 def run_c19(ctx, fa):
     rnd = ctx.sub_rnd("c19")
-    n = 350 if ctx.quick() else 5000
+    n = 800 if ctx.quick() else 6000
     tmproot = tempfile.mkdtemp(prefix="verif_c19_", dir=core.tlc.WORK)
     cases = []
     tries = 0
